@@ -838,9 +838,10 @@ package keyvalue
 //@ spec woInvW(w *writeOnlyFile) := w != nil && w.file != nil && w.file.fileData != nil
 
 //@ func (w *writeOnlyFile) Read(p []byte) (n int, err error)
-//@   props C02
+//@   props C02 C17
 //@   requires woInvW(w)
 //@   ensures "never-reads" n == 0 && err != nil && isPathError(err) && pathOf(err) == w.file.path
+//@   ensures "closed" [C17] implies(w.file.closed, closedError(err, w.file))   // as a closed O_WRONLY os.File
 //@   nopanic
 
 
